@@ -89,6 +89,23 @@ func VerifC16_HHmmPairs() {
 	verifReach("c16.hhmm.pairs")
 }
 
+// the same on the legal domain 00:00..24:00 (the property's quantifier), so that a change which is only
+// wrong inside it is decided even if it leaves the engine's reach for arbitrary field values
+func VerifC16_HHmmPairsLegal() {
+	ah, am := nondetInt("a.h"), nondetInt("a.m")
+	bh, bm := nondetInt("b.h"), nondetInt("b.m")
+	verifAssume(ah >= 0 && ah <= 24 && am >= 0 && am <= 59 && (ah < 24 || am == 0))
+	verifAssume(bh >= 0 && bh <= 24 && bm >= 0 && bm <= 59 && (bh < 24 || bm == 0))
+	a, b := NewHHmm(ah, am), NewHHmm(bh, bm)
+	before, after, equal := a.Before(b), a.After(b), a.Equals(b)
+	verifAssert(b2i(before)+b2i(after)+b2i(equal) == 1, "HHmm 00:00..24:00: exactly one of before/equal/after")
+	verifAssert(before == b.After(a), "HHmm 00:00..24:00: before is the mirror image of after")
+	verifAssert(before == specLexLess2(ah, am, bh, bm), "HHmm 00:00..24:00: before agrees with (hour, minute) order")
+	verifAssert(after == specLexLess2(bh, bm, ah, am), "HHmm 00:00..24:00: after agrees with (hour, minute) order")
+	verifAssert(equal == (ah == bh && am == bm), "HHmm 00:00..24:00: equals agrees with (hour, minute)")
+	verifReach("c16.hhmm.pairs.legal")
+}
+
 func VerifC16_HHmmTransitive() {
 	a := NewHHmm(nondetInt("a.h"), nondetInt("a.m"))
 	b := NewHHmm(nondetInt("b.h"), nondetInt("b.m"))
